@@ -50,6 +50,9 @@ type Options struct {
 	Updating bool
 	// Parameters adds atoms that use $parameters (on by default in Enumerate).
 	Parameters bool
+	// SkipParseCheck returns the texts without running each through the parser first (for callers that parse every text
+	// themselves anyway and treat a rejected enumerated text as a machinery failure).
+	SkipParseCheck bool
 }
 
 // Node and edge kinds used by the enumerated texts (they are the first kinds of the golden corpus' kind mapper).
@@ -286,6 +289,7 @@ func (s *spec) render() string {
 }
 
 func features(opt Options) []feature {
+	opt.SkipParseCheck = false
 	var fs []feature
 	add := func(f feature) { fs = append(fs, f) }
 
@@ -735,6 +739,10 @@ func EnumerateWith(k int, opt Options) []Query {
 		return qs
 	}
 	qs := enumerate(k, opt)
+	if opt.SkipParseCheck {
+		enumCache[key] = qs
+		return qs
+	}
 	// every text must be accepted by the real parser (in parallel; the parser is the dominant cost)
 	errs := make([]error, len(qs))
 	var wg sync.WaitGroup
